@@ -42,6 +42,21 @@ impl<T, B> IdleConnections<T, B> {
         self.inner.push(Idle::new(inner));
     }
 
+    /// Add a connection to the idle set unless `max_idle` open connections are
+    /// already kept; a surplus connection is dropped, which closes it.
+    pub(super) fn push_limited(&mut self, inner: T, max_idle: usize)
+    where
+        T: PoolableConnection<B>,
+        B: Send + 'static,
+    {
+        self.inner.retain(|entry| entry.inner.is_open());
+        if self.inner.len() < max_idle {
+            self.push(inner);
+        } else {
+            trace!("idle connection limit reached, closing connection");
+        }
+    }
+
     pub(super) fn pop(&mut self, idle_timeout: Option<Duration>) -> Option<T>
     where
         T: PoolableConnection<B>,
